@@ -73,6 +73,7 @@ def compare_streams(ref, out):
 
 def model_run(prog, args, word, checked=True, **kw):
     """returns (RefOutcome or None, skip reason)"""
+    kw.setdefault('stack_bytes', GENEROUS_STACK * word)
     try:
         return RefInt(prog, word=word, args=args, checked=checked, **kw).run(), None
     except Skip as s:
